@@ -1,6 +1,8 @@
 """Run the real prover and classify the outcome (bounded stand-ins)."""
 from __future__ import annotations
 
+HARD_SECONDS = 20
+
 def outcome(logic, arg, **opts):
     """-> (cls, tableau) with cls in: valid | invalid | limit | exception:<Type>
     'limit' = premature (step/time limit) or some open branch carries a quit flag (world/constant limit)."""
@@ -8,8 +10,14 @@ def outcome(logic, arg, **opts):
     own_limit = 'max_steps' not in opts
     opts.setdefault('max_steps', 1500)
     opts.setdefault('build_timeout', 1500)
+    from pyvc.par import hard_timeout, HardTimeout
     try:
-        t = Tableau(logic, arg, **opts).build()
+        # the tableau's own build_timeout is only consulted between steps: a hard wall-clock guard covers a single step that
+        # does not return
+        with hard_timeout(HARD_SECONDS):
+            t = Tableau(logic, arg, **opts).build()
+    except HardTimeout:
+        return 'harness-limit', None
     except Exception as e:
         if type(e).__name__ == 'ProofTimeoutError' and own_limit: return 'harness-limit', None
         return f'exception:{type(e).__name__}', None
